@@ -7,10 +7,14 @@ from .linear import Gen, RNGCORE
 
 RULE = ("each RngCore method body of each generator is value-numbered with the method it must be a projection of kept as an opaque "
         "call (state threaded through the call atoms); the returned term, the final state, the destination buffer, the number of "
-        "calls and the absence of any other effect must be identical to the row of the projection table built with the same call atoms")
+        "calls and the absence of any other effect must be identical to the row of the projection table built with the same call atoms; "
+        "(R7) additionally each fill_bytes of the xoshiro family, XorShiftRng and JitterRng is evaluated with rand_core's helper inlined "
+        "and only the type's own next_u32/next_u64 opaque, on destinations of every constant length 0..=17 (thorough 0..=40), and "
+        "compared byte for byte with the table row n/8 x next_u64, then next_u64 (tail 5..7) or next_u32 (tail 1..4)")
 EXPLANATION = ("Decides each generator's own choice of half, order, call count and delegation target (the part of the property that "
-               "lives in this repository). What rand_core's fill_bytes_via_next / BlockRng do with odd lengths and refills is the "
-               "dependency's documented behaviour (source pinned by hash, see C05.R9) and is not re-derived here.")
+               "lives in this repository). What rand_core's fill_bytes_via_next does is re-derived for the listed constant lengths only "
+               "(R7); a hand-written fill_bytes that is not a plain delegation is decided for those lengths only. What BlockRng does "
+               "across refills is the dependency's documented behaviour and is not re-derived here.")
 
 U32GENS = ["Xoroshiro64Star", "Xoroshiro64StarStar", "Xoshiro128Plus", "Xoshiro128PlusPlus", "Xoshiro128StarStar"]
 U64_UPPER = ["Xoroshiro128Plus", "Xoshiro256Plus", "Xoshiro256PlusPlus", "Xoshiro256StarStar", "Xoshiro512Plus", "Xoshiro512PlusPlus", "Xoshiro512StarStar"]
@@ -127,6 +131,106 @@ def check_delegate(chk, g, meth, target_def, target_key_fn, extra=None):
     compare(chk, inst, body, got, exp, 1)
 
 
+class Trial(object):
+    """collects obligations so that a failed delegation identity can fall back to the bounded projection rule"""
+
+    def __init__(self):
+        self.obs = []
+
+    def ob(self, *a, **k):
+        self.obs.append((a, k))
+
+    def body(self, k):
+        pass
+
+    def ok(self):
+        return all(a[2] for a, k in self.obs)
+
+    def replay(self, chk):
+        for a, k in self.obs:
+            chk.ob(*a, **k)
+
+
+def fill_spec(ev, st, g, selfref, n):
+    """the property's table row: n/8 next_u64 results, then one next_u64 (tail 5..7) or one next_u32 (tail 1..4)"""
+    k32, k64 = g.method(RNGCORE, "next_u32"), g.method(RNGCORE, "next_u64")
+    sty = ref_ty(ev, g.tyid)
+    out = []
+    for _ in range(n // 8):
+        w = synth_call(ev, st, k64, [selfref], [sty], ty_id(ev, "u64"))
+        out.extend(T.byte_of(w, i) for i in range(8))
+    t = n % 8
+    if t > 4:
+        w = synth_call(ev, st, k64, [selfref], [sty], ty_id(ev, "u64"))
+        out.extend(T.byte_of(w, i) for i in range(t))
+    elif t > 0:
+        w = synth_call(ev, st, k32, [selfref], [sty], ty_id(ev, "u32"))
+        out.extend(T.byte_of(w, i) for i in range(t))
+    return out, n // 8 + (1 if t else 0)
+
+
+def check_fill_bounded(chk, g, lens, opaque_defs=()):
+    """R7: the type's own fill_bytes, with everything it calls inlined except the type's own next_u32 / next_u64, evaluated
+    on a destination of each constant length"""
+    key = g.method(RNGCORE, "fill_bytes")
+    k32, k64 = g.method(RNGCORE, "next_u32"), g.method(RNGCORE, "next_u64")
+    body = g.crate.body(key)
+    where = body["span"][0]
+    bad = []
+    done = 0
+    for n in lens:
+        ev = g.crate.evaluator()
+        ev.no_inline.update([k32, k64])
+        ev.no_inline.update(opaque_defs)
+        st = State()
+        ref, leaves, oid = sym_self(ev, st, g.tyid, "s")
+        doid = st.alloc(ArrV(n, 8, None, None, {i: T.sym("dest[%d]" % i, 8) for i in range(n)}), "dest")
+        try:
+            ev.call_body(st, key, [ref, Ref(doid, (), (0, n), True)])
+        except (Unsupported, SymbolicLoop) as e:
+            bad.append("n=%d: not established: %s" % (n, e))
+            continue
+        ev2 = g.crate.evaluator()
+        st2 = State()
+        ref2, leaves2, oid2 = sym_self(ev2, st2, g.tyid, "s")
+        exp, ncalls = fill_spec(ev2, st2, g, ref2, n)
+        got = [st.objs[doid].get(i) for i in range(n)]
+        done += 1
+        if len(ev.calls) != ncalls:
+            bad.append("n=%d: %d word call(s) %s, table requires %d" % (n, len(ev.calls), [c[1].split("::")[-1] for c in ev.calls], ncalls))
+        elif any(a is not b for a, b in zip(got, exp)):
+            i = next(i for i, (a, b) in enumerate(zip(got, exp)) if a is not b)
+            bad.append("n=%d: byte %d is %s, table requires %s" % (n, i, T.show(got[i], 3), T.show(exp[i], 3)))
+        elif not same_value(st.objs[oid], st2.objs[oid2]):
+            bad.append("n=%d: final state differs from the state left by the required calls" % n)
+        elif st.world is not st2.world:
+            bad.append("n=%d: an unlisted side effect occurs" % n)
+    ok = not bad
+    chk.ob("R7", "%s::fill_bytes|bytes, word calls and final state for each length in %d..=%d" % (g.ident, lens[0], lens[-1]), ok,
+           "; ".join(bad[:3]), where=where, nontrivial=True,
+           sample={"obligation": "%s::fill_bytes bounded" % g.ident, "lengths": done} if g.ident in ("Xoshiro256PlusPlus", "JitterRng") else None)
+    return ok, done
+
+
+def check_fill(chk, g, lens, opaque_defs=()):
+    """fill_bytes: the delegation identity decides every length at once; a body that is not a plain delegation is decided by the
+    bounded rule R7 alone (and the evidence says so)"""
+    fill = lambda names: next((n for n in names if n.startswith(FILL_VIA + "::<")), None)
+    tr = Trial()
+    check_delegate(tr, g, "fill_bytes", FILL_VIA, fill, extra="dest")
+    okb, done = check_fill_bounded(chk, g, lens, opaque_defs)
+    if tr.ok():
+        tr.replay(chk)
+    elif okb:
+        key = g.method(RNGCORE, "fill_bytes")
+        chk.body(key)
+        chk.ob("R1", "%s::fill_bytes|hand-written body (not a plain delegation): decided for lengths %d..=%d only (R7)" % (
+            g.ident, lens[0], lens[-1]), True, "", where=g.crate.body(key)["span"][0], nontrivial=False)
+    else:
+        tr.replay(chk)
+    return done
+
+
 def run(chk, tier):
     xo = Crate("rand_xoshiro")
     xs = Crate("rand_xorshift")
@@ -165,14 +269,16 @@ def run(chk, tier):
     chk.ob("R6", "SplitMix64::next_u32|same counter step as next_u64", ok,
            "" if ok else "found %s vs %s" % (T.show(posts["next_u32"][0]), T.show(posts["next_u64"][0])))
     # fill_bytes = fill_bytes_via_next(self, dest)
-    fill = lambda names: next((n for n in names if n.startswith(FILL_VIA + "::<")), None)
+    lens = list(range(0, 18)) if tier == "quick" else list(range(0, 41))
+    evals = 0
     for ident in list(REF.GENERATORS) + ["SplitMix64"]:
-        check_delegate(chk, Gen(xo, ident), "fill_bytes", FILL_VIA, fill, extra="dest")
+        evals += check_fill(chk, Gen(xo, ident), lens)
         bodies += 1
-    check_delegate(chk, Gen(xs, "XorShiftRng"), "fill_bytes", FILL_VIA, fill, extra="dest")
+    evals += check_fill(chk, Gen(xs, "XorShiftRng"), lens)
     bodies += 1
-    check_delegate(chk, Gen(jit, "JitterRng"), "fill_bytes", FILL_VIA, fill, extra="dest")
+    evals += check_fill(chk, Gen(jit, "JitterRng"), lens, ["rand_jitter::JitterRng::<F>::gen_entropy"])
     bodies += 1
+    chk.floor("R7", "fill_bytes evaluations at constant lengths", evals, 17 * len(lens))
     # block generators: pure delegation to BlockRng / BlockRng64 on the wrapped value
     for crate, ident, blk in ((hc, "Hc128Rng", "BlockRng"), (isaac, "IsaacRng", "BlockRng"), (isaac, "Isaac64Rng", "BlockRng64")):
         g = Gen(crate, ident)
